@@ -26,7 +26,7 @@ Definition status_code (r : option status) : N :=
   end.
 
 Definition err_code (e : errc) : N :=
-  match e with ENone => 0 | EFault => 1 | EDup => 2 | ERefused => 3 end.
+  match e with ENone => 0 | EFault => 1 | EDup => 2 | ERefused => 3 | ELocked => 4 end.
 
 Fixpoint listN_eqb (a b : list N) : bool :=
   match a, b with
@@ -47,19 +47,23 @@ Definition cmp_thread (off : N) (t : thread) (c : cell) (o : fobs) : list N :=
   (if status_code (c_row c) =? o_status o then [] else [off + 4]) ++
   (if cnt_eqb (c_cnt c) (o_biz o) then [] else [off + 5]).
 
-Fixpoint check_hist (w : world) (h : list (N * phase * option nat * bool)) (obs : list fobs) : world * list N :=
+Definition dop_of (k : N) (ph : phase) (f : option nat) (drv : bool) : dop :=
+  if drv then DDrv k ph f else DApi k ph f.
+
+Fixpoint check_hist (w : dworld) (h : list (N * phase * option nat * bool)) (obs : list fobs) : dworld * list N :=
   match h, obs with
   | [], [] => (w, [])
   | (k, ph, f, drv) :: h', o :: obs' =>
-      let '(t, _) := if drv then deliver_drv (c_row (get w k)) ph f else deliver1 (c_row (get w k)) ph f in
-      let w1 := apply_dop w (if drv then DDrv k ph f else DApi (HDeliver k ph f)) in
+      let '(t, _) := dop_run w (dop_of k ph f drv) in
+      let w1 := apply_dop w (dop_of k ph f drv) in
       let '(w2, e) := check_hist w1 h' obs' in
-      (w2, cmp_thread 0 t (get w1 k) o ++ e)
+      (w2, cmp_thread 0 t (get (fst w1) k) o ++ e)
   | _, _ => (w, [6])
   end.
 
 Definition check_case (c : fcase) : list N :=
-  let '(w, e) := check_hist [] (fc_hist c) (fc_obs c) in
+  let '(dw, e) := check_hist dinit (fc_hist c) (fc_obs c) in
+  let w := fst dw in
   e ++
   match fc_race c, fc_robs c with
   | None, [] => []
@@ -80,14 +84,16 @@ Fixpoint mismatches_from (i : nat) (cs : list fcase) : list (nat * N) :=
 Definition mismatches (cs : list fcase) : list (nat * N) := mismatches_from 0 cs.
 
 (* which known-finding input predicate (if any) does a history satisfy, according to the model:
-   0 none, 1 fence.drivermode.decided-without-business, 2 fence.drivermode.fault-at-commit *)
-Fixpoint hist_pred (w : world) (h : list (N * phase * option nat * bool)) : N :=
+   0 none, 1 fence.drivermode.decided-business-committed, 2 fence.drivermode.fault-at-fence-commit *)
+Fixpoint hist_pred (w : dworld) (h : list (N * phase * option nat * bool)) : N :=
   match h with
   | [] => 0
   | (k, ph, f, drv) :: h' =>
-      if drv && drv_decided (c_row (get w k)) ph then 1
-      else if drv && drv_fault_at_commit (c_row (get w k)) ph f then 2
-      else hist_pred (apply_dop w (if drv then DDrv k ph f else DApi (HDeliver k ph f))) h'
+      let locked := is_locked (snd w) k in
+      let row := c_row (get (fst w) k) in
+      if drv && drv_fault_at_fence_commit locked row ph f then 2
+      else if drv && drv_decided_applied locked row ph f then 1
+      else hist_pred (apply_dop w (dop_of k ph f drv)) h'
   end.
 
-Definition case_preds (cs : list fcase) : list N := map (fun c => hist_pred [] (fc_hist c)) cs.
+Definition case_preds (cs : list fcase) : list N := map (fun c => hist_pred dinit (fc_hist c)) cs.
